@@ -66,3 +66,13 @@ Definition PatternRejected (nd : bool) (root : node) (pat : str) : Prop :=
   pattern_ok (snd (cut_all pat)) = false
   \/ (forall chain, ~ Selects root (split_slash (snd (cut_all pat))) chain)
   \/ (exists chain, Selects root (split_slash (snd (cut_all pat))) chain /\ BadEntry nd (fst (cut_all pat)) chain).
+
+(* ---------- the package level: which files use a go:embed directive ---------- *)
+(* a var spec carries a directive (in its own doc comment or, for an
+   ungrouped declaration, in the doc comment of the declaration) *)
+Definition spec_uses (single : bool) (gdoc : list str) (s : vspec) : bool :=
+  has_directive (spec_docs single gdoc s).
+Definition decl_uses (d : vdecl) : bool :=
+  (is_multi (vd_specs d) && has_directive (vd_doc d))
+  || existsb (spec_uses (is_single (vd_specs d)) (vd_doc d)) (vd_specs d).
+Definition file_uses (f : gofile) : bool := existsb decl_uses (gf_decls f).
